@@ -37,6 +37,13 @@ def run(ctx):
     agg = run_family("C01F3", f3, NAMES, dev=dev, invariants=INVS, properties=[], perms=perms[:2],
                      timeout=600 if quick else 3000, simulate=(150 if quick else 6000, 600, ctx.seed))
     ctx.add_family(agg)
+    # F4: large random programs (depth <= 6, up to 40 items); the real code runs them with random outcomes and the
+    # recorded traces are validated by TLC against the machine (specs/ZPTTrace.tla)
+    from ..tracerun import run_traces
+    n4 = 120 if quick else 2500
+    f4 = [F.random_program(rnd, ctx.tier, depth=5 if quick else 6, max_items=30 if quick else 40, onerror=True, raising=True, width=4)
+          for _ in range(n4)]
+    run_traces(ctx, "C01F4", f4, NAMES, dev=dev, invariants=INVS, runs=2 if quick else 3)
     ctx.exhaustive = True
     ctx.rule = ("programs: F1 = every subset of {define,condition,repeat,case(+switch parent),content|replace,"
                 "omit-tag,attributes} on one element with one child (192 programs); F2 = nests/sibling pairs "
